@@ -275,6 +275,7 @@ pub fn run_property(p: &dyn Property, quick: bool, ctx: &RunCtx) -> i32 {
     let id = p.id();
     crate::refmodel::self_check();
     crate::exec::install_panic_hook();
+    crate::exec::install_logger();
     let findings = load_findings(&ctx.verif_dir);
     set_known(
         findings
@@ -301,6 +302,7 @@ pub fn run_property(p: &dyn Property, quick: bool, ctx: &RunCtx) -> i32 {
                         r
                     });
                     match r {
+                        Err(_) if std::env::var("VERIF_AUX").is_ok() => {}
                         Err(m) => println!("KNOWN-FINDING: property={} {} [{}] ({})", id, f.description, f.signature, first_line(&m)),
                         Ok(()) => println!("note: known finding {} no longer reproduces on this tree", f.signature),
                     }
@@ -481,6 +483,43 @@ pub fn run_property(p: &dyn Property, quick: bool, ctx: &RunCtx) -> i32 {
     if samples.is_empty() {
         samples.push(json!({"class": "none", "case": null}));
     }
+    let aux_mode = std::env::var("VERIF_AUX").map(|v| v == "1").unwrap_or(false);
+    // the run of the second build configuration (see ./check): its summary is folded into the evidence
+    // written by the main run that follows it
+    let second: Value = std::env::var("VERIF_AUX_FILE")
+        .ok()
+        .and_then(|f| std::fs::read_to_string(f).ok())
+        .and_then(|s| serde_json::from_str(&s).ok())
+        .unwrap_or(Value::Null);
+    if aux_mode && failure.is_none() {
+        let summary = json!({
+            "configuration": crate::keys::BUILD_CONFIG,
+            "tier": "quick",
+            "seed": ctx.seed,
+            "evaluations": total.evaluations,
+            "oracle_evaluations": total.oracle_evals,
+            "distinct_nontrivial": total.nontrivial.len(),
+            "excluded_unspecified": total.excluded_unspecified,
+            "violations": 0,
+            "wall_s": wall,
+        });
+        let rdir = ctx.verif_dir.join("replays");
+        let _ = std::fs::create_dir_all(&rdir);
+        std::fs::write(rdir.join(format!("aux-{id}.json")), serde_json::to_string_pretty(&summary).unwrap()).expect("write aux summary");
+        if let Err(m) = p.health(&total, quick) {
+            println!("INCONCLUSIVE property={id} configuration=\"{}\" generator health: {m}", crate::keys::BUILD_CONFIG);
+            return 2;
+        }
+        println!(
+            "ok(second configuration) property={} cases={} nontrivial={} wall={:.1}s [{}]",
+            id,
+            total.evaluations,
+            total.nontrivial.len(),
+            wall,
+            crate::keys::BUILD_CONFIG
+        );
+        return 0;
+    }
     let ev = json!({
         "property_id": id,
         "tier": if quick { "quick" } else { "thorough" },
@@ -498,6 +537,8 @@ pub fn run_property(p: &dyn Property, quick: bool, ctx: &RunCtx) -> i32 {
             "exhaustive": false,
             "exhaustive_part": p.exhaustive_part(quick),
             "regress_cases": regress_n,
+            "configuration": crate::keys::BUILD_CONFIG,
+            "second_configuration": second,
         },
         "assumptions": p.assumptions(),
         "wall_s": wall,
@@ -547,6 +588,7 @@ fn first_line(s: &str) -> &str {
 pub fn replay(p: &dyn Property, path: &Path, ctx: &RunCtx) -> i32 {
     crate::refmodel::self_check();
     crate::exec::install_panic_hook();
+    crate::exec::install_logger();
     let findings = load_findings(&ctx.verif_dir);
     set_known(vec![]); // strict: nothing is excluded on replay
     let _ = findings;
